@@ -205,4 +205,15 @@ def matchingRows (s : State) (fs : List Filter) : List Event :=
   let preds := fs.filterMap (whereOf s)
   s.events.filter fun e => preds.any fun p => p e
 
+/-- `ORDER BY created_at DESC` (one of the orders SQLite may produce: ties keep insertion order) -/
+def insertTs (e : Event) : List Event → List Event
+  | [] => [e]
+  | x :: xs => if x.createdAt < e.createdAt then e :: x :: xs else x :: insertTs e xs
+
+def sortTsDesc (l : List Event) : List Event := l.foldr insertTs []
+
+/-- the rows sent for a REQ: `… ORDER BY created_at DESC LIMIT n` -/
+def answer (s : State) (fs : List Filter) (defaultLimit maxLimit : Nat) : List Event :=
+  (sortTsDesc (matchingRows s fs)).take (effectiveLimit fs defaultLimit maxLimit)
+
 end NostrRelay.SQL
